@@ -69,6 +69,8 @@ class IntegerHolder(ObjectHolder[int]):
     @noPosargs
     @InterpreterObject.method('to_string')
     def to_string_method(self, args: T.List[TYPE_var], kwargs: ToStringKw) -> str:
+        if isinstance(kwargs['fill'], bool):
+            raise InvalidArguments('"to_string" keyword argument "fill" was of type "bool" but should have been "int"')
         format_codes = {'hex': 'x', 'oct': 'o', 'bin': 'b', 'dec': 'd'}
         return '{:#0{fill}{format}}'.format(self.held_object,
                                             fill=max(0, kwargs['fill']),
